@@ -17,6 +17,7 @@ package rosignal
 
 import (
 	"context"
+	"fmt"
 	"os"
 	"os/signal"
 
@@ -33,6 +34,13 @@ func NewSignalCatcher(signals ...os.Signal) ro.Observable[os.Signal] {
 		signal.Notify(ch, signals...)
 
 		go func() {
+			// a teardown that panics inside a terminal notification must not kill the process
+			defer func() {
+				if e := recover(); e != nil {
+					ro.OnUnhandledError(ctx, fmt.Errorf("%v", e))
+				}
+			}()
+
 			for sig := range ch {
 				destination.NextWithContext(ctx, sig)
 			}
